@@ -85,6 +85,7 @@ class Engine:
         self.inputs = {}
         self.ufs_seen = {}
         self.uf_apps = []
+        self.decided = {}
         self.stats['paths'] += 1
         if self.stats['paths'] > self.max_paths:
             raise PathLimit()
@@ -108,11 +109,16 @@ class Engine:
             return True
         if z3.is_false(cond):
             return False
+        key = cond.get_id()
+        hit = self.decided.get(key)
+        if hit is not None:
+            return hit[0]          # already decided on this path: implied by the path condition (the term is kept alive)
         i = len(self.trace)
         if i < len(self.prefix):
             taken, alt = self.prefix[i][0], self.prefix[i][1]
             self.solver.add(cond if taken else z3.Not(cond))
             self.trace.append((taken, alt, note))
+            self.decided[key] = (taken, cond)
             return taken
         self.stats['decisions'] += 1
         rt = self._check(cond)
@@ -130,10 +136,12 @@ class Engine:
         if t_ok:
             self.solver.add(cond)
             self.trace.append((True, f_ok, note))
+            self.decided[key] = (True, cond)
             return True
         if f_ok:
             self.solver.add(z3.Not(cond))
             self.trace.append((False, False, note))
+            self.decided[key] = (False, cond)
             return False
         raise PathInfeasible('path condition unsatisfiable')
 
